@@ -51,6 +51,7 @@ func runC14(r *fw.Run, p *fw.Program) {
 	c14Err(cx)
 	c14Bits(cx)
 	c14Norm(cx)
+	c14Shape(cx)
 	c14Multi(cx)
 	c14Seq(cx)
 	c14Prefix(cx)
